@@ -929,7 +929,7 @@ def main():
     ck.assume('ninja grammar and scoping rules come from lib/verif/refninja.py (ninja is not installed)')
     ck.assume('corpus projects that do not configure in this sandbox (missing compilers/dependencies) are outside the quantifier and only counted')
     ck.finish(evaluations=n, distinct_nontrivial=len(classes),
-              rule='all projgen shapes of <= 3 targets x placements x %s layout/default_library/unity combos; unity builds with 1..9 sources x unity_size {2,4} x 4 ways of consuming the objects; %d collision cases (single declarations with forbidden/reserved names and ordered pairs '
+              rule='all projgen shapes of <= 3 targets x placements x %s layout/default_library/unity combos; unity builds with 1..9 C sources (and 0/1/2/5 C sources plus one assembly source) x unity_size {2,4} x 4 ways of consuming the objects; in-place family: a custom target reading {configure_file, configure_file(copy), custom target output} through {input:, 2nd input:, command line, depend_files:/depends:} with output: spelled {literally, @PLAINNAME[i]@, @BASENAME[i]@.ext, two control spellings of another name} x {root, subdir, build_subdir:} x layout (the same path must be rejected or acyclic, controls must configure); %d collision cases (single declarations with forbidden/reserved names and ordered pairs '
                    'with colliding outputs, mirror and flat layout); %s of the test corpus under test cases/{common,unit,native,linuxlike}. Oracle: setup fails with a MesonException, or build.ninja '
                    'parses, has no duplicate outputs / unknown rules / cycles / dangling inputs and default/test targets are reachable. distinct_nontrivial = distinct (kind, outcome, size bucket).'
                    % ('all 18' if ck.thorough else '1 of 18 (rotated)', len(collision_cases()[1]), 'all' if ck.thorough else 'a quarter (rotated by VERIF_SEED)'),
